@@ -36,6 +36,78 @@ class NullTZ(datetime.tzinfo):
 
 NULLTZ = NullTZ()
 
+_HOUR = datetime.timedelta(hours=1)
+_ZERO = datetime.timedelta(0)
+
+
+def _first_sunday_on_or_after(dt):
+    days = 6 - dt.weekday()
+    return dt + datetime.timedelta(days)
+
+
+class RuleTZ(datetime.tzinfo):
+    """A PEP 495 aware tzinfo with US-style DST rules (second Sunday of March 02:00 to
+    first Sunday of November 02:00, standard offset -5 h).  One shared instance: two
+    datetimes with the same wall time but different `fold` compare equal although they
+    denote instants one hour apart."""
+
+    std = datetime.timedelta(hours=-5)
+
+    def _range(self, year):
+        start = _first_sunday_on_or_after(datetime.datetime(year, 3, 8, 2))
+        end = _first_sunday_on_or_after(datetime.datetime(year, 11, 1, 2))
+        return start, end
+
+    def utcoffset(self, dt):
+        return self.std + self.dst(dt)
+
+    def dst(self, dt):
+        start, end = self._range(dt.year)
+        naive = dt.replace(tzinfo=None)
+        if start + _HOUR <= naive < end - _HOUR:
+            return _HOUR
+        if end - _HOUR <= naive < end:          # repeated hour
+            return _ZERO if dt.fold else _HOUR
+        if start <= naive < start + _HOUR:      # skipped hour
+            return _HOUR if dt.fold else _ZERO
+        return _ZERO
+
+    def tzname(self, dt):
+        return 'RDT' if self.dst(dt) else 'RST'
+
+    def fromutc(self, dt):
+        start, end = self._range(dt.year)
+        start = start.replace(tzinfo=self)
+        end = end.replace(tzinfo=self)
+        std_time = dt + self.std
+        dst_time = std_time + _HOUR
+        if end <= dst_time < end + _HOUR:
+            return std_time.replace(fold=1)
+        if std_time < start or dst_time >= end:
+            return std_time
+        if start <= std_time < end - _HOUR:
+            return dst_time
+        return std_time
+
+    def __repr__(self):
+        return 'RuleTZ()'
+
+    def __deepcopy__(self, memo):      # a singleton: copies keep the same tzinfo object
+        return self
+
+    def __copy__(self):
+        return self
+
+    def __reduce__(self):
+        return (_ruletz, ())
+
+
+def _ruletz():
+    return RULETZ
+
+
+RULETZ = RuleTZ()
+
 
 class Opaque:
     """Stand-in for 'some arbitrary object' in wrong-type generators."""
@@ -69,6 +141,7 @@ def to_json(v):
         off = v.utcoffset()
         return {'$dt': [v.year, v.month, v.day, v.hour, v.minute, v.second,
                         v.microsecond,
+                        ['ruletz', v.fold] if isinstance(v.tzinfo, RuleTZ) else
                         ('nulltz' if v.tzinfo is not None else None)
                         if off is None else off.days * 86400 + off.seconds]}
     if isinstance(v, datetime.date):
@@ -112,6 +185,9 @@ def from_json(j):
             return decimal.Decimal(val)
         if tag == '$dt':
             y, mo, d, h, mi, s, us, off = val
+            if isinstance(off, list):
+                return datetime.datetime(y, mo, d, h, mi, s, us, tzinfo=RULETZ,
+                                         fold=off[1])
             tz = None if off is None else NULLTZ if off == 'nulltz' else \
                 datetime.timezone(datetime.timedelta(seconds=off))
             return datetime.datetime(y, mo, d, h, mi, s, us, tzinfo=tz)
